@@ -253,6 +253,7 @@ func buildC12On(tier string, proto string) sim.Scenario {
 		framesAtPlay := -1
 		chans := map[string]int{} // track -> RTP channel of the last successful interleaved SETUP
 		refusedSetup := false
+		playSent := false
 		paused := false // a PAUSE answered 2xx in the playing state may suspend delivery until the next PLAY
 
 		expect := func(r c12Req) string { // must2xx must455 must404 not2xx any
@@ -287,6 +288,9 @@ func buildC12On(tier string, proto string) sim.Scenario {
 					}
 					if !described || r.track == "streamid=9" || r.track == "" || r.tkind != "tcp" {
 						return "not2xx"
+					}
+					if absControl && r.path != c12Live {
+						return "any" // absolute control URLs: a SETUP URL on another path names no track of this session
 					}
 					return "must2xx"
 				}
@@ -497,7 +501,8 @@ func buildC12On(tier string, proto string) sim.Scenario {
 			}
 			apply(r, m.Status)
 			// R3 / R4
-			if !playOK && cl.nframes() > 0 {
+			// (WSP with pipelining: a PLAY sent in the same batch may already have been served when an earlier answer is read)
+			if !playOK && cl.nframes() > 0 && !(proto == "wsp" && playSent) {
 				w.Fail("C12/media-before-play", "%d interleaved frame(s) arrived before any successful PLAY", cl.nframes())
 				return false
 			}
@@ -545,6 +550,9 @@ func buildC12On(tier string, proto string) sim.Scenario {
 			var cseqs []int
 			var wire [][]byte
 			for k := 0; k < batch; k++ {
+				if script[i+k].method == "PLAY" {
+					playSent = true
+				}
 				c, raw := cl.request(script[i+k].method, url(script[i+k]), hdr(script[i+k]), script[i+k].body)
 				cseqs = append(cseqs, c)
 				wire = append(wire, raw)
